@@ -230,15 +230,56 @@ def index_models(tier, cov, which):
         add_model(cov, f"MC_Cache_{c}", r, desc)
 
 
+def replay_half(v, cov, tier):
+    """Spec -> code: behaviours of CacheReplay.tla (Cache.tla with a history variable) generated by TLC's
+    simulation mode are stepped through the real disk cache, one goroutine per model goroutine held at
+    the verif gates; directory, index order, counters and program counters are compared after every step."""
+    n = 300 if tier == "quick" else 5000
+    r = run_tlc("CacheReplay.tla", "CacheReplay.cfg", workers=1, timeout=3000, simulate=f"num={n}",
+                extra=["-depth", "100", "-seed", str(seed())], keep_prints=True)
+    if not r.ok and not r.prints:
+        raise Machinery(f"simulation of CacheReplay.tla failed: {r.invariant or r.error}\n{r.output[-2000:]}")
+    if r.invariant:
+        raise Machinery(f"CacheReplay.tla violates {r.invariant} in simulation\n{r.output[-3000:]}")
+    beh = os.path.join(scratch(), "behaviours.ndjson")
+    k = 0
+    with open(beh, "w") as f:
+        for l in r.prints:
+            l = l.strip()
+            if l.startswith('<<"CASE", ') and l.endswith('>>'):
+                f.write(json.loads(l[len('<<"CASE", '):-2]) + "\n")
+                k += 1
+    if k == 0:
+        raise Machinery("CacheReplay.tla printed no behaviour")
+    res = run_vh(["sched", "-behaviours", beh, "-seed", str(seed())], timeout=7200)
+    keep = beh
+    if res.get("violations"):
+        os.makedirs(os.path.join(OUT, "replays"), exist_ok=True)
+        keep = os.path.join(OUT, "replays", f"behaviours-{v.prop}-seed{seed()}.ndjson")
+        shutil.copy(beh, keep)
+    collect_driver(v, res, {"driver_args": ["sched", "-behaviours", keep, "-seed", str(seed())], "kind": "driver"})
+    cov["drivers"].append({"driver": "sched (replay of TLC behaviours through the gates)", "behaviours": res["cases"], "nontrivial": res["nontrivial"],
+                           "rule": res["rule"], "extra": res.get("extra"), "drive_s": round(res["_wall_s"], 1), "simulate_s": round(r.wall_s, 1)})
+    cov["evaluations"] += res["cases"]
+    cov["distinct_nontrivial"] += res["nontrivial"]
+    for smp in res.get("samples", [])[:1]:
+        cov["samples"].append({"driver": "sched", "behaviour": smp})
+    if res["cases"] == 0:
+        raise Machinery("sched replayed nothing")
+    log(f"[conf] sched: {res['cases']} behaviours of CacheReplay.tla replayed ({res['nontrivial']} with overlapping requests, {res.get('extra')}), "
+        f"{len(res.get('violations', []))} violations, {res['_wall_s']:.1f}s")
+
+
 def index_family(prop, tier, plans):
     t0 = time.time()
     cov = new_cov()
     v = Verdict(prop)
     index_models(tier, cov, prop)
     trace_half(v, plans, cov)
+    replay_half(v, cov, tier)
     rc = v.finish()
     cov["rule"] = "histories are generated from VERIF_SEED; a history counts as non-trivial by the rule its driver states; distinct by operation sequence / seed"
-    cov["checker_cmd"] = "tlc MC_Cache.tla (exhaustive) + tlc LruTrace.tla on recorded traces"
+    cov["checker_cmd"] = "tlc MC_Cache.tla (exhaustive) + tlc LruTrace.tla on recorded traces + tlc -simulate CacheReplay.tla replayed by vh sched"
     write_evidence(prop, tier, "model_checking", cov, time.time() - t0, len(v.violations), INDEX_ASSUME)
     return rc
 
@@ -250,6 +291,7 @@ def c03(prop, tier):
     plans = [
         ("seq", ["seq", "-seed", str(s), "-hists", "24" if q else "400", "-ops", "40" if q else "60"]),
         ("stress", ["stress", "-seed", str(s), "-hists", "4" if q else "40", "-workers", "8"]),
+        ("lru", ["lru", "-seed", str(s), "-hists", "40" if q else "1500", "-ops", "80"]),
     ]
     return index_family(prop, tier, plans)
 
@@ -261,6 +303,7 @@ def c04(prop, tier):
     plans = [
         ("seq", ["seq", "-seed", str(s), "-hists", "24" if q else "400", "-ops", "40" if q else "60"]),
         ("stress", ["stress", "-seed", str(s), "-hists", "4" if q else "40", "-workers", "6"]),
+        ("lru", ["lru", "-seed", str(s), "-hists", "40" if q else "1500", "-ops", "80"]),
     ]
     return index_family(prop, tier, plans)
 
@@ -271,6 +314,7 @@ def c05(prop, tier):
     q = tier == "quick"
     plans = [
         ("seq", ["seq", "-seed", str(s), "-hists", "30" if q else "600", "-ops", "50" if q else "80"]),
+        ("lru", ["lru", "-seed", str(s), "-hists", "40" if q else "1500", "-ops", "80"]),
     ]
     return index_family(prop, tier, plans)
 
@@ -282,6 +326,7 @@ def c07(prop, tier):
     plans = [
         ("stress", ["stress", "-seed", str(s), "-hists", "8" if q else "80", "-workers", "8"]),
         ("stress16", ["stress", "-seed", str(s + 1), "-hists", "2" if q else "20", "-workers", "16", "-ops", "8"]),
+        ("lru", ["lru", "-seed", str(s), "-hists", "40" if q else "1500", "-ops", "80"]),
     ]
     return index_family(prop, tier, plans)
 
@@ -385,6 +430,10 @@ def c10(prop, tier):
                       t0=t0, extra_models=extra)
 
 
+# thorough tier: how many seeds (concretisations of the same table) each property's drivers run with
+THOROUGH_SEEDS = {"C08": 8, "C18": 8, "C19": 3, "C20": 1, "C15": 1, "C02": 2, "C12": 2, "C09": 2, "C06": 2, "C11": 3, "C13": 1}
+
+
 def multi_check(prop, tier, models, drivers, assumptions, checker_cmd):
     """models: list of (name, module, cfg, desc, table_key or None) - TLC runs; a table_key makes the run
     write a case table that drivers can refer to as {table_key}.  drivers: list of (name, args)."""
@@ -406,8 +455,15 @@ def multi_check(prop, tier, models, drivers, assumptions, checker_cmd):
         log(f"[model] {name}: {r.generated} states generated, {r.distinct} distinct, depth {r.depth}, {r.wall_s:.1f}s")
         add_model(cov, name, r, desc)
     rules = []
-    for name, args in drivers:
-        a = [x.replace("{tier}", tier).replace("{seed}", str(seed())) for x in args]
+    reps = 1 if tier == "quick" else THOROUGH_SEEDS.get(prop, 2)
+    plan = []
+    for rep in range(reps):
+        for name, args in drivers:
+            if rep > 0 and not any("{seed}" in x for x in args):
+                continue
+            plan.append((name if rep == 0 else f"{name}#seed+{rep}", args, seed() + 1000 * rep))
+    for name, args, sd in plan:
+        a = [x.replace("{tier}", tier).replace("{seed}", str(sd)) for x in args]
         for k, p in tables.items():
             a = [x.replace("{" + k + "}", p) for x in a]
         res = run_vh(a, timeout=7200)
@@ -501,46 +557,52 @@ def c20(prop, tier):
         raise Machinery(f"Format.tla model mode did not pass: {r.invariant or r.error}\n{r.output[-2000:]}")
     log(f"[model] Format (model): {r.distinct} headers, names table written, {r.wall_s:.1f}s")
     add_model(cov, "Format/model", r, "every header of blobs of 1..5 bytes in chunks of 1..3 bytes with frames of 1..3 bytes, both compression types: parse(render(h)) = h, frame size skips exactly the header, well-formedness fixes every chunk position; naming functions injective over 3 kinds x 3 hashes x 2 modes x 3 prefixes")
-    prep = tempfile.mkdtemp(prefix="fmt-prep-", dir=scratch())
-    res = run_vh(["format", "-phase", "prep", "-prep", prep, "-tier", tier, "-seed", str(seed())], timeout=1800)
-    if res.get("error") or res["cases"] == 0:
-        raise Machinery(f"format prep failed: {res.get('error')}")
-    headers = os.path.join(scratch(), "format-headers.json")
-    r2 = run_tlc("Format.tla", "Format_render.cfg", env={"VERIF_PARAMS_IN": os.path.join(prep, "params.ndjson"), "VERIF_HEADERS_OUT": headers}, workers=1, timeout=900)
-    if not r2.ok or not os.path.exists(headers):
-        raise Machinery(f"Format.tla render mode did not pass: {r2.invariant or r2.error}\n{r2.output[-2000:]}")
-    log(f"[model] Format (render): header bytes for {r2.distinct} independent encodings, {r2.wall_s:.1f}s")
-    add_model(cov, "Format/render", r2, "header bytes laid out by the specification for every independent encoding of this run (chunk sizes 4 KiB .. 5 MiB, 6 encoder settings, both compression types)")
-    record = os.path.join(scratch(), "format-written.ndjson")
-    args = ["format", "-phase", "run", "-prep", prep, "-headers", headers, "-names", names, "-record", record, "-tier", tier, "-seed", str(seed())]
-    res = run_vh(args, timeout=7200)
-    collect_driver(v, res, {"driver_args": args, "kind": "driver"})
-    log(f"[conf] format: {res['cases']} experiments, {len(res.get('violations', []))} violations, {res['_wall_s']:.1f}s")
-    nrec = sum(1 for _ in open(record)) if os.path.exists(record) else 0
-    if nrec:
-        r3 = run_tlc("Format.tla", "Format_validate.cfg", env={"VERIF_TRACE_FILE": record}, workers=1, timeout=900)
-        if r3.reject:
-            tag, line = r3.reject
-            rec_line = open(record).read().splitlines()[line - 1]
-            name = json.loads(rec_line).get("name")
-            v.add(prop, f"trace:{tag}", f"a compressed CAS file written by this build ({name}) does not conform to the format: {tag}",
-                  {"kind": "trace", "tag": tag, "line": line, "file": name})
-        elif not r3.ok:
-            raise Machinery(f"Format.tla validate mode failed: {r3.invariant or r3.error}\n{r3.output[-2000:]}")
-        log(f"[trace] Format (validate): {nrec} recorded headers, {'rejected: ' + str(r3.reject) if r3.reject else 'accepted'}, {r3.wall_s:.1f}s")
-        add_model(cov, "Format/validate", r3, "headers of the compressed CAS files this build wrote in this run: parsable, re-render to identical bytes, well formed against the file size, size/name/chunk size/type as published")
-    elif not res.get("violations"):
-        raise Machinery("format run recorded no written files")
-    shutil.rmtree(prep, ignore_errors=True)
-    cov["evaluations"] = res["cases"]
-    cov["distinct_nontrivial"] = res["nontrivial"]
+    tot_cases = tot_nt = tot_rec = 0
+    for rep in range(1 if tier == "quick" else 6):
+        sd = seed() + 1000 * rep
+        prep = tempfile.mkdtemp(prefix="fmt-prep-", dir=scratch())
+        res = run_vh(["format", "-phase", "prep", "-prep", prep, "-tier", tier, "-seed", str(sd)], timeout=1800)
+        if res.get("error") or res["cases"] == 0:
+            raise Machinery(f"format prep failed: {res.get('error')}")
+        headers = os.path.join(scratch(), "format-headers.json")
+        r2 = run_tlc("Format.tla", "Format_render.cfg", env={"VERIF_PARAMS_IN": os.path.join(prep, "params.ndjson"), "VERIF_HEADERS_OUT": headers}, workers=1, timeout=900)
+        if not r2.ok or not os.path.exists(headers):
+            raise Machinery(f"Format.tla render mode did not pass: {r2.invariant or r2.error}\n{r2.output[-2000:]}")
+        log(f"[model] Format (render): header bytes for {r2.distinct} independent encodings, {r2.wall_s:.1f}s")
+        add_model(cov, "Format/render", r2, "header bytes laid out by the specification for every independent encoding of this run (chunk sizes 4 KiB .. 5 MiB, 6 encoder settings, both compression types)")
+        record = os.path.join(scratch(), "format-written.ndjson")
+        args = ["format", "-phase", "run", "-prep", prep, "-headers", headers, "-names", names, "-record", record, "-tier", tier, "-seed", str(sd)]
+        res = run_vh(args, timeout=7200)
+        collect_driver(v, res, {"driver_args": args, "kind": "driver"})
+        log(f"[conf] format: {res['cases']} experiments, {len(res.get('violations', []))} violations, {res['_wall_s']:.1f}s")
+        nrec = sum(1 for _ in open(record)) if os.path.exists(record) else 0
+        if nrec:
+            r3 = run_tlc("Format.tla", "Format_validate.cfg", env={"VERIF_TRACE_FILE": record}, workers=1, timeout=900)
+            if r3.reject:
+                tag, line = r3.reject
+                rec_line = open(record).read().splitlines()[line - 1]
+                name = json.loads(rec_line).get("name")
+                v.add(prop, f"trace:{tag}", f"a compressed CAS file written by this build ({name}) does not conform to the format: {tag}",
+                      {"kind": "trace", "tag": tag, "line": line, "file": name})
+            elif not r3.ok:
+                raise Machinery(f"Format.tla validate mode failed: {r3.invariant or r3.error}\n{r3.output[-2000:]}")
+            log(f"[trace] Format (validate): {nrec} recorded headers, {'rejected: ' + str(r3.reject) if r3.reject else 'accepted'}, {r3.wall_s:.1f}s")
+            add_model(cov, "Format/validate", r3, "headers of the compressed CAS files this build wrote in this run: parsable, re-render to identical bytes, well formed against the file size, size/name/chunk size/type as published")
+        elif not res.get("violations"):
+            raise Machinery("format run recorded no written files")
+        shutil.rmtree(prep, ignore_errors=True)
+        tot_cases += res["cases"]
+        tot_nt += res["nontrivial"]
+        tot_rec += nrec
+    cov["evaluations"] = tot_cases
+    cov["distinct_nontrivial"] = tot_nt
     cov["rule"] = res["rule"]
     cov["samples"] = res.get("samples", [])[:5]
     cov["extra"] = res.get("extra")
-    cov["recorded_headers"] = nrec
+    cov["recorded_headers"] = tot_rec
     cov["drivers"].append({"driver": "format", "executions": res["cases"], "drive_s": round(res["_wall_s"], 1)})
     cov["checker_cmd"] = "tlc Format.tla (model / render / validate) + vh format"
-    if res["cases"] < 10:
+    if tot_cases < 10:
         raise Machinery("C20: vacuous run")
     rc = v.finish()
     write_evidence(prop, tier, "model_checking", cov, time.time() - t0, len(v.violations),
@@ -688,16 +750,21 @@ def c15(prop, tier):
         shutil.copy(finals, dst)
         files.append(dst)
         add_model(cov, f"Keyspace_{cfg}", r, f"all histories of 3 writes (AC via HTTP/gRPC under 3 instances, CAS) with {desc}: isolation invariants; expected reads per history")
-    args = ["keyspace", "-cases", ",".join(files), "-tier", tier, "-seed", str(seed())]
-    res = run_vh(args, timeout=3600)
-    collect_driver(v, res, {"driver_args": args, "kind": "driver"})
-    cov["evaluations"], cov["distinct_nontrivial"], cov["rule"] = res["cases"], res["nontrivial"], res["rule"]
-    cov["samples"] = res.get("samples", [])[:4]
-    cov["drivers"].append({"driver": "keyspace", "executions": res["cases"], "drive_s": round(res["_wall_s"], 1)})
+    # thorough: the same histories with several draws of instance names
+    for rep in range(1 if tier == "quick" else 8):
+        args = ["keyspace", "-cases", ",".join(files), "-tier", tier, "-seed", str(seed() + 1000 * rep)]
+        res = run_vh(args, timeout=3600)
+        collect_driver(v, res, {"driver_args": args, "kind": "driver"})
+        cov["evaluations"] += res["cases"]
+        cov["distinct_nontrivial"] += res["nontrivial"]
+        cov["rule"] = res["rule"]
+        if rep == 0:
+            cov["samples"] = res.get("samples", [])[:4]
+        cov["drivers"].append({"driver": "keyspace", "seed": seed() + 1000 * rep, "executions": res["cases"], "drive_s": round(res["_wall_s"], 1)})
+        log(f"[conf] keyspace: {res['cases']} executions ({res['nontrivial']} non-trivial), {len(res.get('violations', []))} violations, {res['_wall_s']:.1f}s")
+        if res["cases"] == 0:
+            raise Machinery("C15: nothing executed")
     cov["checker_cmd"] = "tlc Keyspace.tla (4 configurations) + vh keyspace"
-    log(f"[conf] keyspace: {res['cases']} executions ({res['nontrivial']} non-trivial), {len(res.get('violations', []))} violations, {res['_wall_s']:.1f}s")
-    if res["cases"] == 0:
-        raise Machinery("C15: nothing executed")
     rc = v.finish()
     write_evidence(prop, tier, "model_checking", cov, time.time() - t0, len(v.violations),
                    CASE_ASSUME + ["instance names come from a catalogue (nested, segments named ac / cas / blobs / uploads, unicode, spaces); names that are not path-clean are excluded as documented",
